@@ -40,10 +40,15 @@ HostsFor(f) == IF f.out \in {"E", "S", "B", "Simple", "Args"}
                THEN (IF Full /\ f \notin QuickE \cup QuickS THEN {"function", "constructor"} ELSE HostsUsed)
                ELSE {"function"}
 
+\* quick tier: besides the representative frames every instance is also placed in a rotating seventh of ALL the other
+\* frames (in a function), so that over the instances of a detector every syntactic position is used
+RotatingFrames(i) == IF Full THEN {} ELSE {f \in EHole \ QuickE : (Len(f.k) + f.hs + f.hp) % 7 = Len(i.label) % 7 /\ f.out \in {"E", "S", "B", "Simple"}}
 ExprFamily(insts) ==
     UNION {UNION {{L(i.label \o "@" \o f.k \o "." \o ToString(f.hs) \o "." \o ToString(f.hp) \o "/" \o h, Place(f, i.tree, h))
                       : h \in HostsFor(f)} : f \in EFramesUsed}
            : i \in {x \in insts : x.sort = "E"}}
+    \cup UNION {{L(i.label \o "@" \o f.k \o "." \o ToString(f.hs) \o "." \o ToString(f.hp) \o "/function~", Place(f, i.tree, "function"))
+                   : f \in RotatingFrames(i)} : i \in {x \in insts : x.sort = "E"}}
     \cup {L(i.label \o "@stmt/" \o h, HostFile(h, <<ExprStmt(i.tree)>>)) : i \in {x \in insts : x.sort = "E"}, h \in HostsUsed}
     \cup {L(i.label \o "@free", FreeFile(<<ExprStmt(i.tree)>>)) : i \in {x \in insts : x.sort = "E"}}
 StmtFamily(insts) ==
